@@ -591,18 +591,11 @@ def framework_errors(rep, doc, port, seed, rounds):
                          "body": value, "schema": schema, "expected_status": expect})
 
 
-def main():
-    sys.setrecursionlimit(20000)
-    a = parse_args(sys.argv[1:])
-    t0 = time.time()
-    binpath = oas_binary()
-    quick = a["tier"] == "quick"
-    n_pos, chunk, extras, router_rounds = (200, 50, 6, 400) if quick else (4000, 250, 40, 8000)
+def run_against(rep, a, binpath, serve_cmd, n_pos, chunk, extras, router_rounds):
     fd, doc_path = tempfile.mkstemp(prefix="oas_c07_doc_", suffix=".json")
     os.close(fd)
-    srv = subprocess.Popen([binpath, "c07-zoo-serve", "--doc", doc_path, "--workers", "8"],
+    srv = subprocess.Popen([binpath, serve_cmd, "--doc", doc_path, "--workers", "8"],
                            stdin=subprocess.PIPE, stdout=subprocess.PIPE, stderr=subprocess.PIPE, text=True)
-    rep = Report(PROP, ENGINE, RULE)
     try:
         port = None
         for _ in range(2):
@@ -610,7 +603,7 @@ def main():
             if line.startswith("PORT "):
                 port = int(line.split()[1])
         if port is None:
-            sys.stderr.write("zoo server did not start: %s\n" % srv.stderr.read()[-2000:])
+            sys.stderr.write("%s did not start: %s\n" % (serve_cmd, srv.stderr.read()[-2000:]))
             sys.exit(2)
         doc = json.load(open(doc_path))
         tasks = []
@@ -625,6 +618,7 @@ def main():
                                   (path, method, lo, min(n_pos, lo + chunk), extras if lo == 0 else 0)))
         tasks.append(("router", port, doc_path, a["seed"], router_rounds))
         rep.count("operations", nops)
+        rep.count("operations:%s" % serve_cmd, nops)
         with multiprocessing.Pool(a["procs"]) as pool:
             for r in pool.imap_unordered(worker, tasks):
                 rep.merge(r)
@@ -641,6 +635,20 @@ def main():
             os.unlink(doc_path)
         except OSError:
             pass
+
+
+def main():
+    sys.setrecursionlimit(20000)
+    a = parse_args(sys.argv[1:])
+    t0 = time.time()
+    binpath = oas_binary()
+    quick = a["tier"] == "quick"
+    n_pos, chunk, extras, router_rounds = (200, 50, 6, 400) if quick else (4000, 250, 40, 8000)
+    rep = Report(PROP, ENGINE, RULE)
+    # two servers: the function-based zoo, and a trait-based API whose document comes from
+    # the STUB description while the server is built from the implementation
+    for serve_cmd, scale in (("c07-zoo-serve", 1.0), ("c07-trait-serve", 2.0)):
+        run_against(rep, a, binpath, serve_cmd, int(n_pos * scale), chunk, extras, router_rounds if serve_cmd == "c07-zoo-serve" else router_rounds // 8)
     rep.write(a["out"], a["seed"], a["tier"], t0)
 
 
